@@ -30,6 +30,23 @@ PROPS["C11"] = {
     "explanation": "",
 }
 
+PROPS["C14"] = {
+    "engines": ["S"],
+    "bounds": [],
+    "outside_bounds": [],
+    "stubs": [],
+    "assumptions": [],
+    "explanation": "",
+}
+PROPS["C20"] = {
+    "engines": ["S"],
+    "bounds": [],
+    "outside_bounds": [],
+    "stubs": [],
+    "assumptions": [],
+    "explanation": "",
+}
+
 HOOK_COMMITS = ["3b45d39", "83997c5"]
 
 # Every property that has no entry in PROPS is listed with its reason.
